@@ -279,6 +279,7 @@ def check_C08(ctx):
     scen = vt.tlc_generate(ctx, 'GenWire', 'C08', 0)
     # stalled HTTP providers / resolvers: the provider scripts of Enrich!PubAll, the slow-resolver documents of GenDoc!C18All
     scen += pub_scenarios(ctx)
+    scen += vt.tlc_generate(ctx, 'GenDoc', 'C08', 0)         # stalled resolvers (real clock)
     wire_family(ctx, 'C08', scen, rule, nontrivial=lambda s, es: True)
     ctx.extra['rule'] = rule + '; plus ' + (WIRE_RULE % 'C08All (silence, floods, SACK handshake stalls, cancellation grid incl. ties)')
     vt.write_evidence(ctx, 'model_checking', ctx_rule(ctx), exhaustive=True)
@@ -571,10 +572,11 @@ def pub_scenarios(ctx):
 
 def check_C18(ctx):
     scen = vt.tlc_generate(ctx, 'GenDoc', 'C18', 400 if ctx.quick() else 0)
+    scen += vt.tlc_generate(ctx, 'GenDoc', 'C18dup', 0)      # concurrent duplicate lookups, then a re-lookup that must hit the cache
     scen += cache_scenarios(ctx, 'Enrich.cfg' if ctx.quick() else 'Enrich_6.cfg')[: (3000 if ctx.quick() else 10**9)]
     scen += pub_scenarios(ctx)
     wire_family(ctx, 'C18', scen,
-                '(a) ' + (DOC_RULE % 'C18All (address multisets with duplicates / empty / mapped forms x per-address resolver behaviour names|two|empty|error|slow)') +
+                '(a) ' + (DOC_RULE % 'C18All (address multisets with duplicates / empty / mapped forms x per-address resolver behaviour names|two|empty|error|slow) and C18Dup (concurrent duplicate lookups with different outcomes, then a re-lookup)') +
                 '; (b) every operation sequence of the cache state machine Enrich.tla (get k ok|err, advance ttl-1|2|ttl+1) explored by TLC, replayed on cache.GetWithExpiration '
                 'and reversedns.GetReverseDns under the virtual clock; (c) every provider script of Enrich!PubAll (10 behaviours ^ 3 providers) on publicip.GetPublicIP with a scripted transport',
                 nontrivial=lambda s, es: True)
